@@ -142,7 +142,7 @@ func replay(args []string) {
 		}
 		// run one estimator in the three modes; check returns the observed parameter vector
 		drive := func(family string, mk func() (interface{}, error), check func(mode string, p []float64, pdf ScalarPdf)) {
-			modes := []string{"weighted", "batch-weighted", "clone-weighted", "weighted-offset0", "weighted-offset1", "weighted-offset2", "batch-weighted-offset0"}
+			modes := []string{"weighted", "batch-weighted", "clone-weighted", "weighted-offset0", "weighted-offset1", "weighted-offset2", "batch-weighted-offset0", "clonebatch-weighted"}
 			if c.UnitWeights {
 				modes = append(modes, "unweighted", "batch-unweighted")
 			}
@@ -151,6 +151,16 @@ func replay(args []string) {
 				if err != nil {
 					report(family, mode, "constructor_error", "estimator", err.Error())
 					continue
+				}
+				if mode == "clonebatch-weighted" {
+					// the batch-interface copy of a configured estimator is configured alike
+					cb, ok := e.(interface {
+						CloneScalarBatchEstimator() ScalarBatchEstimator
+					})
+					if !ok {
+						continue
+					}
+					e = cb.CloneScalarBatchEstimator()
 				}
 				if mode == "clone-weighted" {
 					// a copy of a configured estimator is configured alike (bounds included)
@@ -175,7 +185,7 @@ func replay(args []string) {
 						if err = b.Initialize(ThreadPool{}); err == nil {
 							for i := range xs {
 								var g ConstScalar
-								if mode == "batch-weighted" {
+								if mode == "batch-weighted" || mode == "clonebatch-weighted" {
 									g = ConstFloat64(gs[i])
 								} else if mode == "batch-weighted-offset0" {
 									g = ConstFloat64(gs[i] + gammaOffsets[0])
@@ -959,6 +969,51 @@ func matrixHmmScenario(name string, chunk int) emScenario {
 	}}
 }
 
+// Baum-Welch with a constrained M-step: equality constraints between transition probabilities (the row
+// normalisation is solved numerically), and the hierarchical transition matrix (blocks of a tree of states)
+func structuredHmmScenario(name string, kind string) emScenario {
+	return emScenario{name, func(rng *rand.Rand, epsilon float64, maxSteps int, emit func(emev)) (float64, error) {
+		nseq := 1 + rng.Intn(3)
+		xs := make([]ConstVector, nseq)
+		for i := range xs {
+			xs[i] = NewDenseFloat64Vector(countData(rng, 6+rng.Intn(10), 2))
+		}
+		var est *vectorEstimator.HmmEstimator
+		hook := generic.BaumWelchHook{Value: func(h generic.BasicHmm, i int, l, e float64) {
+			d, _ := est.GetEstimate()
+			emit(emev{E: "hook", I: i, Nan: math.IsNaN(l), Lik: sc(l), Eps: sc(e), Recomp: sc(vectorLL(d, xs))})
+		}}
+		var err error
+		switch kind {
+		case "constrained":
+			a := 0.2 + 0.3*rng.Float64()
+			pi := NewDenseFloat64Vector([]float64{0.5, 0.3, 0.2})
+			tr := NewDenseFloat64Matrix([]float64{1 - 2*a, a, a, a, 1 - 2*a, a, 0.3, 0.3, 0.4}, 3, 3)
+			// tr[0][1] = tr[1][0] and tr[0][2] = tr[1][2]
+			c1, _ := generic.NewEqualityConstraint([]int{0, 1, 1, 0})
+			c2, _ := generic.NewEqualityConstraint([]int{0, 2, 1, 2})
+			est, err = vectorEstimator.NewConstrainedHmmEstimator(pi, tr, []int{0, 1, 1}, nil, nil, []generic.EqualityConstraint{c1, c2}, categoricals(rng), epsilon, maxSteps, hook)
+		case "hierarchical":
+			pi := NewDenseFloat64Vector([]float64{0.4, 0.2, 0.2, 0.2})
+			tr := NewDenseFloat64Matrix([]float64{
+				0.5, 0.3, 0.1, 0.1,
+				0.3, 0.5, 0.1, 0.1,
+				0.1, 0.1, 0.5, 0.3,
+				0.1, 0.1, 0.3, 0.5}, 4, 4)
+			tree := generic.NewHmmNode(generic.NewHmmLeaf(0, 2), generic.NewHmmLeaf(2, 4))
+			est, err = vectorEstimator.NewHierarchicalHmmEstimator(pi, tr, []int{0, 1, 0, 1}, nil, nil, tree, categoricals(rng), epsilon, maxSteps, hook)
+		}
+		if err != nil {
+			return 0, err
+		}
+		if err := est.EstimateOnData(xs, nil, ThreadPool{}); err != nil {
+			return 0, err
+		}
+		d, _ := est.GetEstimate()
+		return vectorLL(d, xs), nil
+	}}
+}
+
 func emScenarios() []emScenario {
 	return []emScenario{
 		mixtureScenario("smix-normal", normals, func(r *rand.Rand) []float64 { return normalData(r, 10+r.Intn(30), 2) }),
@@ -985,6 +1040,8 @@ func emScenarios() []emScenario {
 			return x
 		}),
 		discreteLatticeScenario(),
+		structuredHmmScenario("vhmm-constrained", "constrained"),
+		structuredHmmScenario("vhmm-hierarchical", "hierarchical"),
 		matrixHmmScenario("mhmm-scalarid", 0),
 		matrixHmmScenario("mhmm-scalarid-chunked", 3),
 	}
